@@ -153,7 +153,9 @@ type VC struct {
 	assertHit         map[string]bool
 	foldedCases       int
 	callSites         map[string][]token.Pos // per callee name: call positions of the function under verification, in source order
-	sliceDefs         map[string]*Term       // named constants defined as mk-slice(...): their components fold
+	defCache          map[string]*Term       // see defMap
+	defCacheN         int
+	sliceDefs         map[string]*Term // named constants defined as mk-slice(...): their components fold
 	tableEpoch        int
 }
 
